@@ -71,11 +71,12 @@ pub const ATTRS: &[Attr] = &[
     /* 15 */ Attr { kw: StepType::When, kind: "expr", text: "set {string} to {int}", func: "set", mode: "p", tys: "su" },
     /* 16 */ Attr { kw: StepType::Then, kind: "expr", text: "box {mp} has {int} items", func: "boxf", mode: "p", tys: "su" },
     /* 17 */ Attr { kw: StepType::When, kind: "expr", text: "release {ver} now", func: "ver", mode: "p", tys: "s" },
-    /* 18 (second World) */ Attr { kw: StepType::Given, kind: "lit", text: "a literal step", func: "other_world", mode: "p", tys: "" },
+    /* 18 */ Attr { kw: StepType::Given, kind: "re", text: r"(\d+) cukes", func: "cukes", mode: "p", tys: "u" },
+    /* 19 (second World) */ Attr { kw: StepType::Given, kind: "lit", text: "a literal step", func: "other_world", mode: "p", tys: "" },
 ];
 
 /// index of the second World's attribute (the last one)
-const W2: usize = 18;
+const W2: usize = 19;
 
 /// a `Result` spelled through aliases: the glue must still fail the step on `Err`
 pub type StepResult = Result<(), String>;
@@ -176,6 +177,12 @@ fn copy(w: &mut ZW, a: String, b: String) {
 #[when(expr = "set {string} to {int}")]
 fn set(w: &mut ZW, k: String, n: u32) {
     w.log.push(format!("set|{k}|{n}"));
+}
+
+/// an UNANCHORED regex: the match may start anywhere in the step text
+#[given(regex = r"(\d+) cukes")]
+fn cukes(w: &mut ZW, n: u32) {
+    w.log.push(format!("cukes|{n}"));
 }
 
 #[when(expr = "release {ver} now")]
@@ -279,6 +286,7 @@ const TEXTS: &[&str] = &[
     "alias ok", "alias err", "alias no", "aalias ok", "aalias err",
     "copy \"a.txt\" to \"b.txt\"", "copy 'a' to 'b'", "copy \"\" to 'x'", "copy 'p q' to \"r\"", "copy a to b",
     "set 'k' to 7", "set \"k\" to 7", "set \"k\" to -7", "set \"\" to 0", "set k to 7",
+    "I have 5 cukes", "12 cukes", "there are 300 cukes left", "é 7 cukes", "no cukes",
     "release 3.7 now", "release 10.0 now", "release 3. now", "release x.1 now", "release 12.345 now",
     "box a1 has 3 items", "box b2 has 3 items", "box b2 has -1 items", "box c3 has 3 items", "box a1 has x items",
 ];
@@ -290,7 +298,7 @@ pub fn gen_dispatch(rng: &mut Rng, _idx: usize) -> Case {
     // two thirds of the time use the keyword of the attribute the text was written for
     let home = ATTRS[..W2].iter().find(|a| match a.kind {
         "lit" => text.starts_with(&a.text[..a.text.len().min(6)]),
-        "re" => text.split(' ').next() == a.text.trim_start_matches('^').split(' ').next(),
+        "re" => text.split(' ').next() == a.text.trim_start_matches('^').split(' ').next() || (a.func == "cukes" && text.contains("cukes")),
         _ => expr_home(a.func, text),
     });
     let kw = match home {
